@@ -34,7 +34,7 @@ def passing_tests(wt):
 def main():
     ap = argparse.ArgumentParser()
     ap.add_argument("worktree")
-    ap.add_argument("which")
+    ap.add_argument("which")  # the seed letter
     ap.add_argument("pid")
     ap.add_argument("--checks", default=None)
     ap.add_argument("--baseline", default="/tmp/baseline_pass.json")
